@@ -2,6 +2,7 @@ from abc import ABCMeta, abstractmethod
 from collections import namedtuple
 from typing import Any, Callable, Dict, List, Type
 
+from spec_classes.errors import FrozenInstanceError
 from spec_classes.methods.base import AttrMethodDescriptor
 from spec_classes.types import MISSING, Attr
 from spec_classes.utils.mutation import mutate_value, protect_via_deepcopy
@@ -59,6 +60,16 @@ class CollectionAttrMutator(metaclass=ABCMeta):
         self.instance = instance
 
         if collection is MISSING_COLLECTION:
+            metadata = getattr(instance, "__spec_class__", None)
+            if (
+                inplace
+                and metadata
+                and metadata.frozen
+                and not getattr(instance, "__spec_class_initializing__", False)
+            ):
+                raise FrozenInstanceError(
+                    f"Cannot mutate attribute `{attr_spec.name}` of frozen spec class `{instance.__class__.__name__}`."
+                )
             collection = getattr(instance, self.attr_spec.name, MISSING)
         if collection is not MISSING and not inplace:
             collection = protect_via_deepcopy(collection)
